@@ -27,6 +27,9 @@ def shape_edges(shape, vs):
         return [(vs[i], vs[(i + 1) % n]) for i in range(n)] + [(vs[0], vs[2])]
     if shape == "diamond":
         return [(vs[0], vs[1]), (vs[1], vs[2]), (vs[2], vs[3]), (vs[3], vs[0]), (vs[0], vs[2]), (vs[1], vs[3])]
+    if shape.startswith("multi"):  # "multi<e>": e edges among the n vertices in a fixed pattern (repeated and reciprocal pairs occur)
+        e = int(shape[5:])
+        return [(vs[i % n], vs[(2 * i + 1) % n]) for i in range(e)]
     if shape == "double":          # two vertices, exactly two (reciprocal) edges
         return [(vs[0], vs[1]), (vs[1], vs[0])]
     if shape == "empty":
@@ -36,7 +39,8 @@ def shape_edges(shape, vs):
 
 FAST_MENU = [("clique", 2), ("clique", 2), ("clique", 3), ("clique", 3), ("clique", 4), ("clique", 5), ("cycle", 3), ("cycle", 4),
              ("cycle", 5), ("cycle", 6), ("diamond", 4), ("star", 3), ("star", 4), ("path", 2), ("path", 3), ("path", 4),
-             ("chord", 4), ("chord", 5), ("double", 2), ("double", 2)]
+             ("chord", 4), ("chord", 5), ("double", 2), ("double", 2)] + \
+    [("multi%d" % e, s) for s in (1, 2, 3, 4, 5) for e in (1, 2, 3, 5) if not (s == 1 and e > 2)]
 
 # custom motifs: (orbit sizes, shape over the concatenated vertices, naming style)
 CUSTOM_MENU = [
